@@ -114,7 +114,9 @@ static std::string gen_outside_name(Rng &r, const std::string &dom)
 	static const char *al = "abcdefghijklmnopqrstuvwxyz0123456789-ABCDEFGHIJKLMNOPQRSTUVWXYZ";
 	auto label = [&](int n) { std::string s; for (int i = 0; i < n; i++) s += al[r.range(0, (i == 0 || i == n - 1) ? 35 : 62)]; return s; };
 	std::string n;
-	switch (r.range(0, 9)) {
+	switch (r.range(0, 11)) {
+	case 10: return std::string();                                                 // the root name "." (priming queries, . NS / . SOA / . DNSKEY)
+	case 11: return label((int)r.range(1, 12));                                    // a single label (a TLD)
 	case 0: n = "www.example.org"; break;
 	case 1: n = label((int)r.range(1, 63)) + ".net"; break;                       // label lengths up to the legal maximum
 	case 2: n = label(63) + "." + label((int)r.range(1, 63)) + ".test"; break;
